@@ -201,6 +201,10 @@ def handleValidate (args : Lean.Json) : Except String Lean.Json := do
       let env := mkVEnv u rs
       if !Go.guarded env then
         return Lean.Json.mkObj [("model", outcome "fuel" [("why", "in-place reference cycle")]), ("H", hList u)]
+      -- the proved certificate (C01.spec_defined, C10.validate_no_panic_ranked): ranked ∧ closed; on a Resolve output it must
+      -- hold whenever `guarded` does (C01.guarded_iff_ranked) — anything else is a defect of the model, reported as such
+      if !(Go.ranked env && Go.closed env) then
+        return Lean.Json.mkObj [("model", outcome "uncertified" [("ranked", .bool (Go.ranked env)), ("closed", .bool (Go.closed env))]), ("H", hList u)]
       let verdicts := insts.map fun g =>
         match Go.validate env Generated.supportedVersions validateFuelN rs.root g with
         | .ok _ => "valid"
